@@ -513,10 +513,16 @@ impl Prop for C01 {
 pub struct C04;
 
 /// Fault offsets swept for a document of length `len`.
-fn fault_offsets(case: &ParseCase) -> Vec<usize> {
+///
+/// `units` is the measured cost of the fault-free run (read calls and bytes); the sweep of a very
+/// expensive case (megabytes served one byte per read) is thinned out so that one case stays
+/// within a fixed amount of work. The bound is a function of counts only, never of wall-clock
+/// time, so the sweep is the same in every execution.
+fn fault_offsets(case: &ParseCase, units: u64) -> Vec<usize> {
     if let Some(k) = case.only_k {
         return vec![k.min(case.doc.len())];
     }
+    let max_offsets = ((1u64 << 28) / units.max(1)).clamp(8, 300) as usize;
     let len = case.doc.len();
     if len <= 300 {
         (0..=len).collect()
@@ -531,9 +537,9 @@ fn fault_offsets(case: &ParseCase) -> Vec<usize> {
         v.push(len);
         v.sort_unstable();
         v.dedup();
-        if v.len() > 300 {
+        if v.len() > max_offsets {
             // huge documents: thin the sweep out evenly (keeps both ends)
-            let stride = v.len() / 300 + 1;
+            let stride = v.len() / max_offsets + 1;
             let last = *v.last().unwrap();
             v = v.into_iter().step_by(stride).collect();
             if v.last() != Some(&last) {
@@ -583,7 +589,9 @@ impl Prop for C04 {
         let mut fired_n = 0u64;
         let mut t = Fnv::default();
         t.u64(trace0);
-        for k in fault_offsets(case) {
+        let units = src0.state().c.calls * 4 + case.doc.len() as u64;
+        for k in fault_offsets(case, units) {
+            crate::framework::heartbeat();
             let (got, src) = run_scheduled(case, Some(k));
             let s = src.state();
             let fired = s.failed;
@@ -701,7 +709,9 @@ impl Prop for C04 {
         let mut out = vec![];
         if case.only_k.is_none() {
             // pin the sweep to single offsets first (cheap bisection over all offsets)
-            for k in fault_offsets(case) {
+            let (_, src0) = run_scheduled(case, None);
+            let units = src0.state().c.calls * 4 + case.doc.len() as u64;
+            for k in fault_offsets(case, units) {
                 let mut c = case.clone();
                 c.only_k = Some(k);
                 out.push(c);
